@@ -37,12 +37,15 @@ Proof.
       split; [destruct pre; discriminate|]. split.
       * rewrite forallb_app, E3. cbn [forallb andb]. unfold is_digit. rewrite andb_true_r.
         assert (n mod 10 < 10)%N by (apply N.mod_lt; lia).
-        Show. apply andb_true_iff; split; apply N.leb_le; lia.
+        clear -H. set (m := (n mod 10)%N) in *. apply andb_true_iff; split; apply N.leb_le; lia.
       * intros a. rewrite fold_left_app, E4. cbn [fold_left]. unfold dstep.
         rewrite app_length. cbn [length].
         replace (N.of_nat (length pre + 1)) with (N.succ (N.of_nat (length pre))) by lia.
         rewrite N.pow_succ_r'.
-        pose proof (N.div_mod n 10). lia.
+        pose proof (N.div_mod n 10) as Hdm. clear -Hdm.
+        set (m := (n mod 10)%N) in *. set (q := (n / 10)%N) in *.
+        set (P := (10 ^ N.of_nat (length pre))%N). 
+        replace (48 + m - 48)%N with m by lia. lia.
 Qed.
 
 Lemma dec_of_N_spec n :
@@ -157,16 +160,828 @@ Proof.
     unfold is_dot, c_dot. apply negb_true_iff. apply N.eqb_neq. lia.
 Qed.
 
-Lemma next_image_partname_fresh names e nm : ext_ok e = true ->
-  next_image_partname names e = Ok nm -> ~ In nm names.
-Proof.
-  intros He Hn Hin. unfold next_image_partname in Hn.
-  assert (nm = image_partname (next_image_idx names) e).
-  { unfold packuri_new, image_partname, s_img_prefix in Hn. simpl in Hn. congruence. }
-  subst nm. apply (next_image_idx_fresh names).
-  rewrite <- (image_idx_of_partname _ e He). apply in_map. exact Hin.
-Qed.
-
 Lemma next_image_partname_ok names e :
   next_image_partname names e = Ok (image_partname (next_image_idx names) e).
 Proof. reflexivity. Qed.
+
+Lemma next_image_partname_fresh names e nm : ext_ok e = true ->
+  next_image_partname names e = Ok nm -> ~ In nm names.
+Proof.
+  intros He Hn Hin. rewrite next_image_partname_ok in Hn. injection Hn as <-. apply (next_image_idx_fresh names).
+  rewrite <- (image_idx_of_partname _ e He). apply in_map. exact Hin.
+Qed.
+
+
+Lemma digits_not_slash l : forallb is_digit l = true -> forallb not_slash l = true.
+Proof. apply forallb_impl. exact digit_not_slash. Qed.
+
+Lemma ext_image_partname n e : ext_ok e = true -> ext (image_partname n e) = e.
+Proof.
+  intros He. apply andb_true_iff in He as [He1 He2].
+  destruct (dec_of_N_spec n) as [D1 [D2 D3]].
+  change (image_partname n e) with (render ([s_ppt; s_media] ++ [(s_image ++ dec_of_N n) ++ c_dot :: e])).
+  apply ext_render; auto.
+  - repeat constructor.
+  - unfold wf_segb.
+    assert (Hns : forallb not_slash ((s_image ++ dec_of_N n) ++ c_dot :: e) = true).
+    { rewrite !forallb_app. cbn [forallb]. rewrite (digits_not_slash _ D2), He2. reflexivity. }
+    rewrite Hns. reflexivity.
+Qed.
+
+(* ================================================================== tables used by the store *)
+
+Lemma assoc_In k v l : assoc k l = Some v -> In (k, v) l.
+Proof.
+  induction l as [|[a b] l IH]; simpl; [discriminate|].
+  destruct (str_eqb_spec k a) as [->|Hn]; cbn iota.
+  - intros E; inversion E; subst; auto.
+  - intros E. right. auto.
+Qed.
+
+Definition ext_row_ok (fe : str * str) : bool :=
+  ext_ok (snd fe) &&
+  match assoc (snd fe) image_content_types with
+  | Some ct => ct_is_imagepart ct
+  | None => false
+  end.
+
+Lemma ext_map_rows_ok : forallb ext_row_ok ext_map = true.
+Proof. vm_compute. reflexivity. Qed.
+
+Lemma image_ext_ok m e : image_ext m = Ok e ->
+  ext_ok e = true /\ exists ct, ext_content_type e = Ok ct /\ ct_is_imagepart ct = true.
+Proof.
+  destruct m as [|[f|] w h d]; cbn [image_ext]; try discriminate.
+  destruct (assoc f ext_map) as [e'|] eqn:E; try discriminate.
+  intros Q; inversion Q; subst e'.
+  apply assoc_In in E.
+  pose proof (proj1 (forallb_forall _ _) ext_map_rows_ok _ E) as R.
+  unfold ext_row_ok in R. cbn [snd] in R. apply andb_true_iff in R as [R1 R2].
+  split; [exact R1|]. unfold ext_content_type.
+  destruct (assoc e image_content_types) as [ct|]; [|discriminate].
+  exists ct. auto.
+Qed.
+
+(* ================================================================== the store *)
+
+Lemma nodup_snoc {A} (l : list A) x : NoDup l -> ~ In x l -> NoDup (l ++ [x]).
+Proof.
+  induction 1 as [|y l Hy Hl IH]; simpl; intros Hx.
+  - constructor; [tauto|constructor].
+  - constructor.
+    + rewrite in_app_iff. simpl. intros [H1|[H1|[]]]; [tauto|]. subst. tauto.
+    + apply IH. tauto.
+Qed.
+
+Lemma find_snoc {A} (f : A -> bool) l x :
+  find f (l ++ [x]) = match find f l with Some y => Some y | None => if f x then Some x else None end.
+Proof. induction l as [|y l IH]; simpl; [reflexivity|]. destruct (f y); auto. Qed.
+
+Lemma nodup_map_inj {A B} (f : A -> B) l : NoDup (map f l) ->
+  forall a b, In a l -> In b l -> f a = f b -> a = b.
+Proof.
+  induction l as [|x l IH]; simpl; intros Hn a b Ha Hb E; [contradiction|].
+  inversion Hn as [|? ? Hx Hl]; subst.
+  destruct Ha as [->|Ha], Hb as [->|Hb]; auto.
+  - exfalso. apply Hx. rewrite E. apply in_map. exact Hb.
+  - exfalso. apply Hx. rewrite <- E. apply in_map. exact Ha.
+Qed.
+
+Lemma nth_set_nth {A} (l : list A) : forall s x y,
+  nth_error l s = Some y -> nth_error (set_nth s x l) s = Some x.
+Proof.
+  induction l as [|z l IH]; intros [|s] x y N; simpl in *; try discriminate; auto.
+  eapply IH; eauto.
+Qed.
+
+Section StoreProofs.
+  Variable H : blob -> str.
+  Variable fl : Q -> Q.
+
+  Definition names (ps : list part) : list str := map p_name ps.
+  Definition vdigests (ps : list part) : list str := map (digest H) (filter visible ps).
+  Definition cls_by_ct (p : part) : Prop := p_cls p = ct_is_imagepart (p_ct p).
+
+  (** the state invariant: part names are unique, no two indexed image parts have the
+      same digest, and the class of each part is the one its content type selects *)
+  Record InvP (ps : list part) : Prop := mkInvP {
+    inv_names : NoDup (names ps);
+    inv_digests : NoDup (vdigests ps);
+    inv_cls : Forall cls_by_ct ps }.
+  Definition Inv (st : state) : Prop := InvP (st_parts st).
+
+  Lemma find_by_digest_some d ps p : find_by_digest H d ps = Some p ->
+    In p ps /\ visible p = true /\ digest H p = d.
+  Proof.
+    unfold find_by_digest. intros E. apply find_some in E as [E1 E2].
+    apply andb_true_iff in E2 as [E2 E3]. apply str_eqb_eq in E3. auto.
+  Qed.
+
+  Lemma find_by_digest_none d ps : find_by_digest H d ps = None ->
+    forall p, In p ps -> visible p = true -> digest H p <> d.
+  Proof.
+    unfold find_by_digest. intros E p Hp Hv Hd.
+    pose proof (find_none _ _ E p Hp) as F. simpl in F.
+    rewrite Hv, Hd, str_eqb_refl in F. discriminate.
+  Qed.
+
+  Lemma vdigests_In d ps : In d (vdigests ps) <->
+    exists p, In p ps /\ visible p = true /\ digest H p = d.
+  Proof.
+    unfold vdigests. rewrite in_map_iff. split.
+    - intros [p [E Hp]]. apply filter_In in Hp as [Hp Hv]. eauto.
+    - intros [p [Hp [Hv E]]]. exists p. split; auto. apply filter_In. auto.
+  Qed.
+
+  (** with unique digests there is at most one indexed part per digest *)
+  Lemma digest_unique ps p q : NoDup (vdigests ps) ->
+    In p ps -> In q ps -> visible p = true -> visible q = true ->
+    digest H p = digest H q -> p = q.
+  Proof.
+    intros Hn Hp Hq Vp Vq E.
+    apply (nodup_map_inj (digest H) (filter visible ps) Hn); auto; apply filter_In; auto.
+  Qed.
+
+  Lemma new_image_part_spec ps im p : new_image_part ps im = Ok p ->
+    p_blob p = i_blob im /\ p_meta p = i_meta im /\ visible p = true /\ cls_by_ct p /\
+    ~ In (p_name p) (names ps) /\
+    exists e, image_ext (i_meta im) = Ok e /\
+              p_name p = image_partname (next_image_idx (names ps)) e /\
+              ext (p_name p) = e /\ ext_content_type e = Ok (p_ct p).
+  Proof.
+    unfold new_image_part. destruct (image_ext (i_meta im)) as [e|] eqn:E; cbn [bind]; [|discriminate].
+    destruct (image_ext_ok _ _ E) as [He [ct [Hct Hcls]]].
+    fold (names ps). rewrite next_image_partname_ok. cbn [bind]. rewrite Hct. cbn [bind].
+    intros Q; injection Q as <-. cbn [p_blob p_meta p_name p_ct p_cls p_rel visible andb].
+    repeat split; auto.
+    - unfold cls_by_ct. simpl. auto.
+    - apply (next_image_partname_fresh (names ps) e); auto.
+    - exists e. repeat split; auto. apply ext_image_partname; auto.
+  Qed.
+
+  (** the package-level lookup: either the indexed part with that digest, or a new part
+      appended under a fresh name holding exactly the bytes given *)
+  Lemma get_or_add_spec ps im ps' p : get_or_add H ps im = Ok (ps', p) ->
+    (ps' = ps /\ find_by_digest H (H (i_blob im)) ps = Some p) \/
+    (ps' = ps ++ [p] /\ find_by_digest H (H (i_blob im)) ps = None /\ new_image_part ps im = Ok p).
+  Proof.
+    unfold get_or_add. destruct (find_by_digest H (H (i_blob im)) ps) as [q|] eqn:F.
+    - intros Q; injection Q as <- <-. left; auto.
+    - destruct (new_image_part ps im) as [q|] eqn:N; simpl; [|discriminate].
+      intros Q; injection Q as <- <-. right; auto.
+  Qed.
+
+  Lemma get_or_add_result ps im ps' p : get_or_add H ps im = Ok (ps', p) ->
+    In p ps' /\ visible p = true /\ digest H p = H (i_blob im) /\
+    find_by_digest H (H (i_blob im)) ps' = Some p /\ (forall q, In q ps -> In q ps').
+  Proof.
+    intros G. destruct (get_or_add_spec _ _ _ _ G) as [[-> F]|[-> [F N]]].
+    - destruct (find_by_digest_some _ _ _ F) as [A [B C]]. auto.
+    - destruct (new_image_part_spec _ _ _ N) as [A [_ [B _]]].
+      assert (D : digest H p = H (i_blob im)) by (unfold digest; rewrite A; reflexivity).
+      repeat split; auto.
+      + apply in_or_app; right; left; reflexivity.
+      + unfold find_by_digest in *. rewrite find_snoc, F. rewrite B. unfold digest in D.
+        unfold digest. rewrite D, str_eqb_refl. reflexivity.
+      + intros q Hq. apply in_or_app; auto.
+  Qed.
+
+  Lemma get_or_add_inv ps im ps' p : InvP ps -> get_or_add H ps im = Ok (ps', p) -> InvP ps'.
+  Proof.
+    intros [I1 I2 I3] G. destruct (get_or_add_spec _ _ _ _ G) as [[-> F]|[-> [F N]]].
+    - constructor; auto.
+    - destruct (new_image_part_spec _ _ _ N) as [A [_ [B [C [D _]]]]].
+      constructor.
+      + unfold names. rewrite map_app. apply nodup_snoc; auto.
+      + unfold vdigests. rewrite filter_app, map_app. simpl. rewrite B. simpl.
+        apply nodup_snoc; auto. intros Hin. apply vdigests_In in Hin as [q [Hq [Vq Eq]]].
+        apply (find_by_digest_none _ _ F q Hq Vq). rewrite Eq. unfold digest. rewrite A. reflexivity.
+      + apply Forall_app; split; auto.
+  Qed.
+
+  (** a digest that is indexed stays indexed, by the same part *)
+  Lemma get_or_add_persist ps im ps' p d q : find_by_digest H d ps = Some q ->
+    get_or_add H ps im = Ok (ps', p) -> find_by_digest H d ps' = Some q.
+  Proof.
+    intros F G. destruct (get_or_add_spec _ _ _ _ G) as [[-> _]|[-> _]]; auto.
+    unfold find_by_digest in *. rewrite find_snoc, F. reflexivity.
+  Qed.
+
+  (** adding the same bytes again adds nothing and gives the same part *)
+  Lemma get_or_add_twice ps im im' ps1 p : get_or_add H ps im = Ok (ps1, p) ->
+    H (i_blob im') = H (i_blob im) -> get_or_add H ps1 im' = Ok (ps1, p).
+  Proof.
+    intros G E. destruct (get_or_add_result _ _ _ _ G) as [_ [_ [_ [F _]]]].
+    unfold get_or_add. rewrite E, F. reflexivity.
+  Qed.
+
+  Lemma reload_part_id p : cls_by_ct p -> reload_part p = p.
+  Proof. destruct p; unfold cls_by_ct, reload_part; simpl. intros <-. reflexivity. Qed.
+
+  Lemma reload_parts_id ps : Forall cls_by_ct ps -> map reload_part ps = ps.
+  Proof. induction 1 as [|p ps Hp _ IH]; simpl; [reflexivity|]. rewrite reload_part_id, IH; auto. Qed.
+
+  (* ---- relationships ---- *)
+  Lemma relate_spec nm rs rs' k : relate nm rs = Ok (rs', k) ->
+    In (k, Some nm) rs' /\ (forall r, In r rs -> In r rs').
+  Proof.
+    unfold relate. destruct (find (rel_targets nm) rs) as [r|] eqn:F.
+    - intros Q; injection Q as <- <-. apply find_some in F as [F1 F2].
+      unfold rel_targets in F2. destruct r as [k [t|]]; simpl in *; [|discriminate].
+      apply str_eqb_eq in F2. subst. auto.
+    - destruct (next_rid (map fst rs)) as [k'|]; [|discriminate].
+      intros Q; injection Q as <- <-. split.
+      + apply in_or_app; right; left; reflexivity.
+      + intros r Hr. apply in_or_app; auto.
+  Qed.
+
+  (* ---- one step ---- *)
+  Lemma step_parts st o st' r : step H fl st o = (st', r) ->
+    st_parts st' = st_parts st \/
+    (exists im p, get_or_add H (st_parts st) im = Ok (st_parts st', p)) \/
+    st_parts st' = map reload_part (st_parts st).
+  Proof.
+    destruct o as [|s k|s im u|]; simpl.
+    - intros Q; injection Q as <- <-. auto.
+    - destruct (nth_error (st_slides st) s); [|intros Q; injection Q as <- <-; auto].
+      destruct (occupy k l); intros Q; injection Q as <- <-; auto.
+    - destruct (nth_error (st_slides st) s) as [rs|]; [|intros Q; injection Q as <- <-; auto].
+      destruct (get_or_add H (st_parts st) im) as [[ps' p]|] eqn:G; [|intros Q; injection Q as <- <-; auto].
+      destruct (relate (p_name p) rs) as [[rs' rid]|]; intros Q; injection Q as <- <-; auto.
+      right; left. exists im, p. exact G.
+    - intros Q; injection Q as <- <-. auto.
+  Qed.
+
+  Lemma step_inv st o st' r : Inv st -> step H fl st o = (st', r) -> Inv st'.
+  Proof.
+    unfold Inv. intros I S. destruct (step_parts _ _ _ _ S) as [E|[[im [p G]]|E]].
+    - rewrite E; auto.
+    - eapply get_or_add_inv; eauto.
+    - rewrite E, reload_parts_id; auto. apply inv_cls; auto.
+  Qed.
+
+  Lemma step_persist st o st' r d q : Inv st -> step H fl st o = (st', r) ->
+    find_by_digest H d (st_parts st) = Some q -> find_by_digest H d (st_parts st') = Some q.
+  Proof.
+    intros I S F. destruct (step_parts _ _ _ _ S) as [E|[[im [p G]]|E]].
+    - rewrite E; auto.
+    - eapply get_or_add_persist; eauto.
+    - rewrite E, reload_parts_id; auto. apply inv_cls; auto.
+  Qed.
+
+  Lemma step_keeps st o st' r q : Inv st -> step H fl st o = (st', r) ->
+    In q (st_parts st) -> In q (st_parts st').
+  Proof.
+    intros I S F. destruct (step_parts _ _ _ _ S) as [E|[[im [p G]]|E]].
+    - rewrite E; auto.
+    - destruct (get_or_add_result _ _ _ _ G) as [_ [_ [_ [_ K]]]]. auto.
+    - rewrite E, reload_parts_id; auto. apply inv_cls; auto.
+  Qed.
+
+  (** what a successful image step reports *)
+  Lemma step_image st s im u st' name rid e ct a b :
+    step H fl st (OImage s im u) = (st', Ok (OutImg name rid e ct a b)) ->
+    exists p rs rs', get_or_add H (st_parts st) im = Ok (st_parts st', p) /\
+      name = p_name p /\ ct = p_ct p /\ e = ext name /\
+      nth_error (st_slides st) s = Some rs /\ relate name rs = Ok (rs', rid) /\
+      st_slides st' = set_nth s rs' (st_slides st) /\
+      apply_use fl p u = Ok (a, b).
+  Proof.
+    simpl. destruct (nth_error (st_slides st) s) as [rs|]; [|intros Q; discriminate].
+    destruct (get_or_add H (st_parts st) im) as [[ps' p]|] eqn:G; [|intros Q; discriminate].
+    destruct (relate (p_name p) rs) as [[rs' k]|] eqn:R; [|intros Q; discriminate].
+    destruct (apply_use fl p u) as [[a' b']|] eqn:U; simpl; intros Q; [|discriminate].
+    injection Q as <- <- <- <- <- <- <-. exists p, rs, rs'. simpl. repeat split; auto.
+  Qed.
+
+  (* ---- histories ---- *)
+  Lemma run_cons st o r :
+    run H fl st (o :: r) =
+    (fst (run H fl (fst (step H fl st o)) r), snd (step H fl st o) :: snd (run H fl (fst (step H fl st o)) r)).
+  Proof. simpl. destruct (step H fl st o) as [st1 x]. simpl. destruct (run H fl st1 r). reflexivity. Qed.
+
+  Lemma final_cons st o r : final H fl st (o :: r) = final H fl (fst (step H fl st o)) r.
+  Proof. unfold final. rewrite run_cons. reflexivity. Qed.
+
+  Lemma run_inv ops : forall st, Inv st -> Inv (final H fl st ops).
+  Proof.
+    induction ops as [|o r IH]; intros st I; [exact I|].
+    rewrite final_cons. apply IH. destruct (step H fl st o) as [st1 x] eqn:S. eapply step_inv; eauto.
+  Qed.
+
+  Lemma run_persist ops : forall st d q, Inv st ->
+    find_by_digest H d (st_parts st) = Some q ->
+    find_by_digest H d (st_parts (final H fl st ops)) = Some q.
+  Proof.
+    induction ops as [|o r IH]; intros st d q I F; [exact F|].
+    rewrite final_cons. destruct (step H fl st o) as [st1 x] eqn:S. simpl.
+    apply IH; [eapply step_inv; eauto | eapply step_persist; eauto].
+  Qed.
+
+  Lemma run_keeps ops : forall st q, Inv st -> In q (st_parts st) ->
+    In q (st_parts (final H fl st ops)).
+  Proof.
+    induction ops as [|o r IH]; intros st q I F; [exact F|].
+    rewrite final_cons. destruct (step H fl st o) as [st1 x] eqn:S. simpl.
+    apply IH; [eapply step_inv; eauto | eapply step_keeps; eauto].
+  Qed.
+
+  (** the i-th operation stored an image and reported (name, ext, ct): at the end of the
+      whole history the index maps the digest of those bytes to a part of that name *)
+  Lemma run_stored ops : forall st i s im u name rid e ct a b, Inv st ->
+    nth_error ops i = Some (OImage s im u) ->
+    nth_error (snd (run H fl st ops)) i = Some (Ok (OutImg name rid e ct a b)) ->
+    exists p, find_by_digest H (H (i_blob im)) (st_parts (final H fl st ops)) = Some p /\
+              p_name p = name /\ p_ct p = ct /\ e = ext name.
+  Proof.
+    induction ops as [|o r IH]; intros st i s im u name rid e ct a b I N1 N2.
+    - destruct i; discriminate.
+    - rewrite run_cons in N2. rewrite final_cons.
+      destruct (step H fl st o) as [st1 x] eqn:S. simpl in *.
+      assert (I1 : Inv st1) by (eapply step_inv; eauto).
+      destruct i as [|i]; simpl in *.
+      + injection N1 as ->. injection N2 as ->.
+        destruct (step_image _ _ _ _ _ _ _ _ _ _ _ S) as [p [rs [rs' [G [E1 [E2 [E3 _]]]]]]].
+        destruct (get_or_add_result _ _ _ _ G) as [_ [_ [_ [F _]]]].
+        exists p. split; [apply run_persist; auto|]. auto.
+      + eapply IH; eauto.
+  Qed.
+End StoreProofs.
+
+(* ================================================================== statements of props/C15.v: the store *)
+Section StoreTheorems.
+  Variable H : blob -> str.
+  Variable fl : Q -> Q.
+
+  (** the i-th operation of the history is an image addition that succeeded *)
+  Definition stored_at (st : state) (ops : list op) (i : nat) (im : image) (name e ct : str) : Prop :=
+    exists s u rid a b,
+      nth_error ops i = Some (OImage s im u) /\
+      nth_error (snd (run H fl st ops)) i = Some (Ok (OutImg name rid e ct a b)).
+
+  Lemma once st ops i im name e ct : Inv H st -> stored_at st ops i im name e ct ->
+    let ps := st_parts (final H fl st ops) in
+    exists p, In p ps /\ visible p = true /\ p_name p = name /\ p_ct p = ct /\ ext (p_name p) = e /\
+              digest H p = H (i_blob im) /\
+              forall q, In q ps -> visible q = true -> digest H q = H (i_blob im) -> q = p.
+  Proof.
+    intros I [s [u [rid [a [b [N1 N2]]]]]] ps.
+    destruct (run_stored H fl ops st i s im u name rid e ct a b I N1 N2) as [p [F [E1 [E2 E3]]]].
+    destruct (find_by_digest_some H _ _ _ F) as [A [B C]].
+    exists p. subst. repeat split; auto.
+    intros q Hq Vq Dq. symmetry.
+    apply (digest_unique H ps); auto.
+    - apply (inv_digests H). apply (run_inv H fl ops st I).
+    - congruence.
+  Qed.
+
+  Lemma same_part st ops i j im im' name e ct name' e' ct' : Inv H st ->
+    stored_at st ops i im name e ct -> stored_at st ops j im' name' e' ct' ->
+    H (i_blob im) = H (i_blob im') -> name = name' /\ e = e' /\ ct = ct'.
+  Proof.
+    intros I S1 S2 E.
+    destruct (once _ _ _ _ _ _ _ I S1) as [p [P1 [P2 [P3 [P4 [P5 [P6 P7]]]]]]].
+    destruct (once _ _ _ _ _ _ _ I S2) as [q [Q1 [Q2 [Q3 [Q4 [Q5 [Q6 Q7]]]]]]].
+    assert (q = p) by (apply P7; auto; congruence). subst q.
+    repeat split; congruence.
+  Qed.
+
+  Lemma distinct st ops i j im im' name e ct name' e' ct' : Inv H st ->
+    stored_at st ops i im name e ct -> stored_at st ops j im' name' e' ct' ->
+    H (i_blob im) <> H (i_blob im') -> name <> name'.
+  Proof.
+    intros I S1 S2 E Hn.
+    destruct (once _ _ _ _ _ _ _ I S1) as [p [P1 [P2 [P3 [P4 [P5 [P6 P7]]]]]]].
+    destruct (once _ _ _ _ _ _ _ I S2) as [q [Q1 [Q2 [Q3 [Q4 [Q5 [Q6 Q7]]]]]]].
+    assert (p = q).
+    { apply (nodup_map_inj p_name (st_parts (final H fl st ops))); auto; [|congruence].
+      apply (inv_names H). apply (run_inv H fl ops st I). }
+    subst q. congruence.
+  Qed.
+
+  Lemma bytes st ops i im name e ct : Inv H st -> stored_at st ops i im name e ct ->
+    (forall b, H b = H (i_blob im) -> b = i_blob im) ->
+    exists p, In p (st_parts (final H fl st ops)) /\ p_name p = name /\ p_blob p = i_blob im.
+  Proof.
+    intros I S Hsep.
+    destruct (once _ _ _ _ _ _ _ I S) as [p [P1 [P2 [P3 [P4 [P5 [P6 P7]]]]]]].
+    exists p. repeat split; auto.
+  Qed.
+
+  (** nothing already in the store is changed or dropped by any history *)
+  Lemma preserved st ops q : Inv H st -> In q (st_parts st) -> In q (st_parts (final H fl st ops)).
+  Proof. intros I Hq. apply run_keeps; auto. Qed.
+
+  (** save and re-open: under the invariant the reloaded store is the store, so the
+      digest index rebuilt from the loaded parts answers every query as before *)
+  Lemma reopen st : Inv H st ->
+    step H fl st OReload = (st, Ok OutUnit) /\
+    forall d, find_by_digest H d (map reload_part (st_parts st)) = find_by_digest H d (st_parts st).
+  Proof.
+    intros I. assert (E : map reload_part (st_parts st) = st_parts st)
+      by (apply reload_parts_id; apply (inv_cls H); exact I).
+    split.
+    - simpl. rewrite E. destruct st; reflexivity.
+    - intros d. rewrite E. reflexivity.
+  Qed.
+
+  (** a part created by get_or_add survives re-opening as an indexed image part even
+      without the invariant on the rest of the store *)
+  Lemma reopen_new ps im p : new_image_part ps im = Ok p -> reload_part p = p.
+  Proof.
+    intros N. destruct (new_image_part_spec ps im p N) as [_ [_ [_ [C _]]]].
+    apply reload_part_id. exact C.
+  Qed.
+
+  Lemma new_part_type ps im ps' p : get_or_add H ps im = Ok (ps', p) ->
+    find_by_digest H (H (i_blob im)) ps = None ->
+    p_blob p = i_blob im /\ ~ In (p_name p) (map p_name ps) /\
+    exists e, image_ext (i_meta im) = Ok e /\ ext (p_name p) = e /\
+              assoc e image_content_types = Some (p_ct p).
+  Proof.
+    intros G F. destruct (get_or_add_spec H _ _ _ _ G) as [[_ F']|[_ [_ N]]]; [congruence|].
+    destruct (new_image_part_spec ps im p N) as [A [_ [_ [_ [D [e [E1 [E2 [E3 E4]]]]]]]]].
+    repeat split; auto. exists e. repeat split; auto.
+    unfold ext_content_type in E4. destruct (assoc e image_content_types); [|discriminate].
+    injection E4 as ->. reflexivity.
+  Qed.
+
+  (** the relationship used by the picture targets the stored part *)
+  Lemma rel_targets_part st s im u st' name rid e ct a b :
+    step H fl st (OImage s im u) = (st', Ok (OutImg name rid e ct a b)) ->
+    exists rs', nth_error (st_slides st') s = Some rs' /\ In (rid, Some name) rs'.
+  Proof.
+    intros S. destruct (step_image H fl _ _ _ _ _ _ _ _ _ _ _ S) as [p [rs [rs' [_ [_ [_ [_ [N [R [E _]]]]]]]]]].
+    exists rs'. rewrite E. split.
+    - apply (nth_set_nth _ _ _ _ N).
+    - exact (proj1 (relate_spec _ _ _ _ R)).
+  Qed.
+End StoreTheorems.
+
+(* ================================================================== numbers *)
+Section Numbers.
+Local Open Scope Q_scope.
+
+Lemma rhe_near q : Qabs (inject_Z (rhe q) - q) <= 1 # 2.
+Proof.
+  unfold rhe. set (f := Qfloor q).
+  assert (L : inject_Z f <= q) by apply Qfloor_le.
+  assert (U : q < inject_Z (f + 1)) by apply Qlt_floor.
+  rewrite inject_Z_plus in U. change (inject_Z 1) with 1 in U.
+  destruct (Qcompare_spec (q - inject_Z f) (1 # 2)) as [E|E|E].
+  - destruct (Z.even f).
+    + apply Qabs_Qle_condition. split; lra.
+    + rewrite inject_Z_plus. change (inject_Z 1) with 1. apply Qabs_Qle_condition; split; lra.
+  - apply Qabs_Qle_condition; split; lra.
+  - rewrite inject_Z_plus. change (inject_Z 1) with 1. apply Qabs_Qle_condition; split; lra.
+Qed.
+
+Lemma rhe_proper p q : p == q -> rhe p = rhe q.
+Proof.
+  intros E. unfold rhe.
+  assert (F : Qfloor p = Qfloor q) by (apply Qfloor_comp; exact E).
+  rewrite F. set (f := Qfloor q).
+  destruct (Qcompare_spec (p - inject_Z f) (1 # 2)); destruct (Qcompare_spec (q - inject_Z f) (1 # 2));
+    try reflexivity; exfalso; lra.
+Qed.
+
+Lemma rhe_int z : rhe (inject_Z z) = z.
+Proof.
+  unfold rhe. rewrite Qfloor_Z.
+  destruct (Qcompare_spec (inject_Z z - inject_Z z) (1 # 2)); try reflexivity; exfalso; lra.
+Qed.
+
+Lemma mul_mono (a b c : Q) : 0 <= c -> a <= b -> a * c <= b * c.
+Proof. intros. nra. Qed.
+
+Lemma bound_core (Ab Ac Ar D1 Af1 D2 D3 T eps : Q) :
+  0 <= Ab -> 0 <= Ac -> 0 <= Ar -> 0 <= D1 -> 0 <= D2 -> 0 <= D3 -> 0 <= eps -> eps <= 1 ->
+  D1 <= Ar * eps -> Af1 <= Ar + D1 -> 0 <= Af1 -> D2 <= Ab * Af1 * eps -> D3 <= 1#2 ->
+  T <= Ab * D1 * Ac + D2 * Ac + D3 * Ac ->
+  T <= Ac * (1#2) + (Ar * Ac * Ab) * (3 * eps).
+Proof.
+  intros.
+  assert (P1 : 0 <= Ab * Ac) by nra.
+  assert (E1 : D1 * (Ab * Ac) <= (Ar * eps) * (Ab * Ac)) by (apply mul_mono; auto).
+  assert (E2 : Af1 <= 2 * Ar) by nra.
+  assert (P2 : 0 <= Ab * eps) by nra.
+  assert (E3 : Af1 * (Ab * eps) <= (2 * Ar) * (Ab * eps)) by (apply mul_mono; auto).
+  assert (E3' : D2 <= (2 * Ar) * (Ab * eps)) by nra.
+  assert (E4 : D2 * Ac <= (2 * Ar) * (Ab * eps) * Ac) by (apply mul_mono; auto).
+  assert (E5 : D3 * Ac <= (1#2) * Ac) by (apply mul_mono; auto).
+  nra.
+Qed.
+
+(** 2^-53, the unit roundoff of binary64 *)
+Definition eps53 : Q := 1 # 9007199254740992.
+
+Definition small (z : Z) : Prop := (Z.abs z <= 9007199254740992)%Z.
+
+Section ScaleProofs.
+  Variable fl : Q -> Q.
+  Hypothesis fl_proper : forall p q, p == q -> fl p == fl q.
+  Hypothesis fl_err : forall q, Qabs (fl q - q) <= Qabs q * eps53.
+  Hypothesis fl_int : forall z, small z -> fl (inject_Z z) == inject_Z z.
+
+  (** the computed dimension times the native one differs from the exact cross product by
+      at most half a native unit plus three roundings *)
+  Lemma scaled_bound a c b : small a -> small c -> small b -> c <> 0%Z ->
+    Qabs (inject_Z (scaled fl a c b) * inject_Z c - inject_Z a * inject_Z b)
+    <= Qabs (inject_Z c) * (1 # 2) + Qabs (inject_Z a * inject_Z b) * (3 * eps53).
+  Proof.
+    intros Ha Hc Hb Hc0.
+    set (A := inject_Z a). set (C := inject_Z c). set (B := inject_Z b).
+    assert (C0 : ~ C == 0).
+    { unfold C, Qeq. simpl. lia. }
+    assert (E1 : fl A / fl C == A / C).
+    { unfold A, C. rewrite (fl_int a Ha), (fl_int c Hc). reflexivity. }
+    assert (E2 : fl (fl A / fl C) == fl (A / C)) by (apply fl_proper; exact E1).
+    assert (E3 : fl B * fl (fl A / fl C) == B * fl (A / C)).
+    { rewrite E2. unfold B. rewrite (fl_int b Hb). reflexivity. }
+    assert (E4 : fl (fl B * fl (fl A / fl C)) == fl (B * fl (A / C))) by (apply fl_proper; exact E3).
+    unfold scaled. fold A B C. rewrite (rhe_proper _ _ E4).
+    set (r := A / C). set (f1 := fl r). set (X := fl (B * f1)). set (cy := inject_Z (rhe X)).
+    assert (RC : r * C == A) by (unfold r; field; exact C0).
+    pose proof (fl_err r) as F1. fold f1 in F1.
+    pose proof (fl_err (B * f1)) as F2. fold X in F2. rewrite Qabs_Qmult in F2.
+    pose proof (rhe_near X) as F3. fold cy in F3.
+    assert (T1 : Qabs f1 <= Qabs r + Qabs (f1 - r)).
+    { assert (Ef : f1 == r + (f1 - r)) by ring. rewrite Ef at 1. apply Qabs_triangle. }
+    assert (Dec : cy * C - A * B == B * (f1 - r) * C + ((X - B * f1) * C + (cy - X) * C)).
+    { rewrite <- RC. ring. }
+    assert (T2 : Qabs (cy * C - A * B)
+                 <= Qabs B * Qabs (f1 - r) * Qabs C + Qabs (X - B * f1) * Qabs C + Qabs (cy - X) * Qabs C).
+    { rewrite Dec.
+      eapply Qle_trans; [apply Qabs_triangle|].
+      rewrite !Qabs_Qmult.
+      assert (T3 : Qabs ((X - B * f1) * C + (cy - X) * C)
+                   <= Qabs (X - B * f1) * Qabs C + Qabs (cy - X) * Qabs C).
+      { eapply Qle_trans; [apply Qabs_triangle|]. rewrite !Qabs_Qmult. apply Qle_refl. }
+      lra. }
+    assert (AB : Qabs (A * B) == Qabs r * Qabs C * Qabs B).
+    { rewrite <- RC. rewrite !Qabs_Qmult. reflexivity. }
+    rewrite AB.
+    apply (bound_core (Qabs B) (Qabs C) (Qabs r) (Qabs (f1 - r)) (Qabs f1) (Qabs (X - B * f1))
+                      (Qabs (cy - X)) _ eps53); auto using Qabs_nonneg.
+    - unfold eps53. lra.
+    - unfold eps53. lra.
+  Qed.
+
+  Lemma scale_none icx icy : scale fl icx icy None None = Ok (icx, icy).
+  Proof. reflexivity. Qed.
+
+  Lemma scale_falsy icx icy cx cy : truthy cx = false -> truthy cy = false ->
+    scale fl icx icy cx cy = Ok (icx, icy).
+  Proof. unfold scale. intros -> ->. reflexivity. Qed.
+
+  Lemma scale_both icx icy x y : x <> 0%Z -> y <> 0%Z ->
+    scale fl icx icy (Some x) (Some y) = Ok (x, y).
+  Proof.
+    intros Hx Hy. unfold scale, truthy.
+    destruct (Z.eqb_spec x 0); [contradiction|]. destruct (Z.eqb_spec y 0); [contradiction|]. reflexivity.
+  Qed.
+
+  (** a zero argument is treated exactly as an absent one *)
+  Lemma scale_zero_is_none icx icy o :
+    scale fl icx icy (Some 0%Z) o = scale fl icx icy None o /\
+    scale fl icx icy o (Some 0%Z) = scale fl icx icy o None.
+  Proof. unfold scale. simpl. destruct (truthy o); auto. Qed.
+
+  Lemma scale_width_given icx icy x cy : x <> 0%Z -> truthy cy = false -> icx <> 0%Z ->
+    small x -> small icx -> small icy ->
+    exists y, scale fl icx icy (Some x) cy = Ok (x, y) /\
+      Qabs (inject_Z y * inject_Z icx - inject_Z x * inject_Z icy)
+      <= Qabs (inject_Z icx) * (1 # 2) + Qabs (inject_Z x * inject_Z icy) * (3 * eps53).
+  Proof.
+    intros Hx Hcy Hi Sx Si Sy. unfold scale. rewrite Hcy. unfold truthy.
+    destruct (Z.eqb_spec x 0); [contradiction|]. simpl.
+    destruct (Z.eqb_spec icx 0); [contradiction|].
+    eexists; split; [reflexivity|]. apply scaled_bound; auto.
+  Qed.
+
+  Lemma scale_height_given icx icy cx y : y <> 0%Z -> truthy cx = false -> icy <> 0%Z ->
+    small y -> small icx -> small icy ->
+    exists x, scale fl icx icy cx (Some y) = Ok (x, y) /\
+      Qabs (inject_Z x * inject_Z icy - inject_Z y * inject_Z icx)
+      <= Qabs (inject_Z icy) * (1 # 2) + Qabs (inject_Z y * inject_Z icx) * (3 * eps53).
+  Proof.
+    intros Hy Hcx Hi Sy Si Sj. unfold scale. rewrite Hcx. unfold truthy.
+    destruct (Z.eqb_spec y 0); [contradiction|]. simpl.
+    destruct (Z.eqb_spec icy 0); [contradiction|].
+    eexists; split; [reflexivity|]. apply scaled_bound; auto.
+  Qed.
+
+  Lemma scale_zero_native x cy : x <> 0%Z -> truthy cy = false -> forall icy,
+    scale fl 0 icy (Some x) cy = Err OtherErr.
+  Proof.
+    intros Hx Hcy icy. unfold scale. rewrite Hcy. unfold truthy.
+    destruct (Z.eqb_spec x 0); [contradiction|]. reflexivity.
+  Qed.
+End ScaleProofs.
+
+(** the hypotheses on fl are satisfiable (exact arithmetic meets them) *)
+Lemma fl_hyps_consistent :
+  (forall p q, p == q -> (fun x => x) p == (fun x => x) q) /\
+  (forall q, Qabs ((fun x => x) q - q) <= Qabs q * eps53) /\
+  (forall z, small z -> (fun x : Q => x) (inject_Z z) == inject_Z z).
+Proof.
+  split; [auto|]. split; [|intros; reflexivity].
+  intros q. assert (E : q - q == 0) by ring. rewrite E. simpl.
+  assert (0 <= Qabs q) by apply Qabs_nonneg. unfold eps53. nra.
+Qed.
+End Numbers.
+
+(* ================================================================== dpi, native size *)
+
+Lemma int_dpi_range d n : int_dpi d = Ok n -> 1 <= n <= 2048.
+Proof.
+  destruct d as [q| | |]; simpl; try discriminate; try (intros Q; injection Q as <-; lia).
+  destruct (Z.ltb_spec (rhe q) 1); destruct (Z.ltb_spec 2048 (rhe q)); simpl;
+    intros Q; injection Q as <-; lia.
+Qed.
+
+Lemma int_dpi_total d : d <> DInf -> exists n, int_dpi d = Ok n.
+Proof. destruct d; simpl; eauto. congruence. Qed.
+
+Lemma int_dpi_value q : 1 <= rhe q <= 2048 ->
+  int_dpi (DQ q) = Ok (rhe q) /\ (Qabs (inject_Z (rhe q) - q) <= 1 # 2)%Q.
+Proof.
+  intros Hr. split; [|apply rhe_near]. simpl.
+  destruct (Z.ltb_spec (rhe q) 1); [lia|]. destruct (Z.ltb_spec 2048 (rhe q)); [lia|]. reflexivity.
+Qed.
+
+Lemma int_dpi_default q : (rhe q < 1 \/ 2048 < rhe q) -> int_dpi (DQ q) = Ok 72.
+Proof.
+  intros Hr. simpl.
+  destruct (Z.ltb_spec (rhe q) 1); [reflexivity|]. destruct (Z.ltb_spec 2048 (rhe q)); [reflexivity|]. lia.
+Qed.
+
+Lemma normalize_range d a b : normalize_pil_dpi d = Ok (a, b) -> 1 <= a <= 2048 /\ 1 <= b <= 2048.
+Proof.
+  destruct d as [|x y]; simpl.
+  - intros Q; injection Q as <- <-. lia.
+  - destruct (int_dpi x) as [a'|] eqn:E1; simpl; [|discriminate].
+    destruct (int_dpi y) as [b'|] eqn:E2; simpl; [|discriminate].
+    intros Q; injection Q as <- <-. split; eapply int_dpi_range; eauto.
+Qed.
+
+Lemma native_dim_spec px dpi : 0 <= px -> 1 <= dpi ->
+  native_dim px dpi * dpi <= 914400 * px < (native_dim px dpi + 1) * dpi.
+Proof.
+  intros Hp Hd. unfold native_dim. rewrite Z.quot_div_nonneg by lia.
+  pose proof (Z.div_mod (914400 * px) dpi ltac:(lia)) as DM.
+  pose proof (Z.mod_pos_bound (914400 * px) dpi ltac:(lia)) as MB.
+  set (qq := (914400 * px) / dpi) in *. set (mm := (914400 * px) mod dpi) in *. nia.
+Qed.
+
+Lemma native_size_spec f w h d : 0 <= w -> 0 <= h ->
+  forall cx cy, native_size (Meta f w h d) = Ok (cx, cy) ->
+  exists hd vd, normalize_pil_dpi d = Ok (hd, vd) /\ 1 <= hd <= 2048 /\ 1 <= vd <= 2048 /\
+    cx * hd <= 914400 * w < (cx + 1) * hd /\ cy * vd <= 914400 * h < (cy + 1) * vd.
+Proof.
+  intros Hw Hh cx cy. unfold native_size. simpl.
+  destruct (normalize_pil_dpi d) as [[hd vd]|] eqn:E; simpl; [|discriminate].
+  intros Q; injection Q as <- <-.
+  destruct (normalize_range _ _ _ E) as [R1 R2].
+  exists hd, vd. repeat split; auto; try lia; apply native_dim_spec; lia.
+Qed.
+
+Lemma native_size_total f w h d : (forall x y, d = PTuple x y -> x <> DInf /\ y <> DInf) ->
+  exists cx cy, native_size (Meta f w h d) = Ok (cx, cy).
+Proof.
+  intros Hd. unfold native_size. simpl. destruct d as [|x y]; simpl; eauto.
+  destruct (Hd x y eq_refl) as [Hx Hy].
+  destruct (int_dpi_total x Hx) as [a ->]. destruct (int_dpi_total y Hy) as [b ->]. simpl. eauto.
+Qed.
+
+(** no dpi entry: 72 dpi, that is 12700 EMU per pixel *)
+Lemma native_size_default f w h : native_size (Meta f w h PNoTuple) = Ok (12700 * w, 12700 * h).
+Proof.
+  unfold native_size, native_dim. simpl fst. simpl snd. cbn [meta_dpi normalize_pil_dpi meta_px bind fst snd].
+  replace (914400 * w) with (12700 * w * 72) by lia.
+  replace (914400 * h) with (12700 * h * 72) by lia.
+  rewrite !Z.quot_mul by lia. reflexivity.
+Qed.
+
+(* ================================================================== table obligations (generic part) *)
+
+Definition pair_mem (k v : str) (l : list (str * str)) : bool :=
+  existsb (fun r => str_eqb (fst r) k && str_eqb (snd r) v) l.
+Definition key_functional (k v : str) (l : list (str * str)) : bool :=
+  forallb (fun r => negb (str_eqb (fst r) k) || str_eqb (snd r) v) l.
+
+(** every extension the format map yields has a content type, that pair is a Default row
+    of the content-types writer and the only row for that extension, and the content
+    type is one the part factory maps to ImagePart *)
+Definition tables_ok (em ict dct : list (str * str)) (ipc : list str) : bool :=
+  forallb (fun fe =>
+    match assoc (snd fe) ict with
+    | Some ct => pair_mem (snd fe) ct dct && key_functional (snd fe) ct dct && mem_str ct ipc
+    | None => false
+    end) em.
+
+Lemma tables_ok_sound em ict dct ipc : tables_ok em ict dct ipc = true ->
+  forall fmt e, assoc fmt em = Some e ->
+  exists ct, assoc e ict = Some ct /\ In (e, ct) dct /\
+             (forall ct', In (e, ct') dct -> ct' = ct) /\ In ct ipc.
+Proof.
+  intros T fmt e A. apply assoc_In in A.
+  pose proof (proj1 (forallb_forall _ _) T _ A) as R. cbn [snd] in R.
+  destruct (assoc e ict) as [ct|]; [|discriminate].
+  apply andb_true_iff in R as [R R3]. apply andb_true_iff in R as [R1 R2].
+  exists ct. split; [reflexivity|]. split; [|split].
+  - unfold pair_mem in R1. apply existsb_exists in R1 as [[k v] [Hin Hkv]]. cbn [fst snd] in Hkv.
+    apply andb_true_iff in Hkv as [K V]. apply str_eqb_eq in K, V. subst. exact Hin.
+  - intros ct' Hin. unfold key_functional in R2.
+    pose proof (proj1 (forallb_forall _ _) R2 _ Hin) as F. cbn [fst snd] in F.
+    rewrite str_eqb_refl in F. simpl in F. apply str_eqb_eq in F. exact F.
+  - apply mem_str_In. exact R3.
+Qed.
+
+Definition opt_str_eqb (a b : option str) : bool :=
+  match a, b with
+  | Some x, Some y => str_eqb x y
+  | None, None => true
+  | _, _ => false
+  end.
+
+Lemma opt_str_eqb_eq a b : opt_str_eqb a b = true -> a = b.
+Proof.
+  destruct a, b; simpl; try discriminate; auto. intros E. apply str_eqb_eq in E. congruence.
+Qed.
+
+(** the two association lists define the same lookup function (order-insensitive) *)
+Definition assoc_equiv (a b : list (str * str)) : bool :=
+  forallb (fun kv => opt_str_eqb (assoc (fst kv) a) (assoc (fst kv) b)) (a ++ b).
+
+Lemma assoc_equiv_sound a b : assoc_equiv a b = true -> forall k, assoc k a = assoc k b.
+Proof.
+  intros E k. unfold assoc_equiv in E. rewrite forallb_forall in E.
+  destruct (assoc k a) as [v|] eqn:A.
+  - pose proof (E (k, v) (in_or_app _ _ _ (or_introl (assoc_In _ _ _ A)))) as F.
+    cbn [fst] in F. rewrite A in F. apply opt_str_eqb_eq in F. auto.
+  - destruct (assoc k b) as [v|] eqn:B; [|reflexivity].
+    pose proof (E (k, v) (in_or_app _ _ _ (or_intror (assoc_In _ _ _ B)))) as F.
+    cbn [fst] in F. rewrite A, B in F. discriminate.
+Qed.
+
+Definition set_equiv (a b : list str) : bool :=
+  forallb (fun x => mem_str x b) a && forallb (fun x => mem_str x a) b.
+
+Lemma set_equiv_sound a b : set_equiv a b = true -> forall x, mem_str x a = mem_str x b.
+Proof.
+  intros E x. apply andb_true_iff in E as [E1 E2]. rewrite forallb_forall in E1, E2.
+  destruct (mem_str x a) eqn:A.
+  - apply mem_str_In in A. symmetry. apply E1. exact A.
+  - destruct (mem_str x b) eqn:B; [|reflexivity].
+    apply mem_str_In in B. rewrite (E2 _ B) in A. discriminate.
+Qed.
+
+(** the regenerated tables are the ones the model computes with *)
+Definition tables_match (em ict : list (str * str)) (ipc : list str) : bool :=
+  assoc_equiv em ext_map && assoc_equiv ict image_content_types && set_equiv ipc imagepart_cts.
+
+Lemma tables_match_sound em ict ipc : tables_match em ict ipc = true ->
+  (forall k, assoc k em = assoc k ext_map) /\
+  (forall k, assoc k ict = assoc k image_content_types) /\
+  (forall ct, mem_str ct ipc = ct_is_imagepart ct).
+Proof.
+  intros T. apply andb_true_iff in T as [T T3]. apply andb_true_iff in T as [T1 T2].
+  split; [apply assoc_equiv_sound; auto|]. split; [apply assoc_equiv_sound; auto|].
+  intros ct. unfold ct_is_imagepart. apply set_equiv_sound. exact T3.
+Qed.
+
+(* ================================================================== packaging for props/C15.v *)
+
+Lemma inv_meaning H st :
+  Inv H st <->
+  NoDup (map p_name (st_parts st)) /\
+  NoDup (map (digest H) (filter visible (st_parts st))) /\
+  Forall (fun p => p_cls p = ct_is_imagepart (p_ct p)) (st_parts st).
+Proof.
+  split.
+  - intros [A B C]. auto.
+  - intros [A [B C]]. constructor; auto.
+Qed.
+
+Lemma inv_empty H : Inv H empty_state.
+Proof. constructor; simpl; constructor. Qed.
+
+Lemma scale_one_given : forall fl : Q -> Q,
+  (forall p q, (p == q)%Q -> (fl p == fl q)%Q) ->
+  (forall q, (Qabs (fl q - q) <= Qabs q * eps53)%Q) ->
+  (forall z, small z -> (fl (inject_Z z) == inject_Z z)%Q) ->
+  forall icx icy, small icx -> small icy ->
+  (forall x cy, x <> 0 -> truthy cy = false -> icx <> 0 -> small x ->
+     exists y, scale fl icx icy (Some x) cy = Ok (x, y) /\
+       (Qabs (inject_Z y * inject_Z icx - inject_Z x * inject_Z icy)
+        <= Qabs (inject_Z icx) * (1 # 2) + Qabs (inject_Z x * inject_Z icy) * (3 * eps53))%Q) /\
+  (forall y cx, y <> 0 -> truthy cx = false -> icy <> 0 -> small y ->
+     exists x, scale fl icx icy cx (Some y) = Ok (x, y) /\
+       (Qabs (inject_Z x * inject_Z icy - inject_Z y * inject_Z icx)
+        <= Qabs (inject_Z icy) * (1 # 2) + Qabs (inject_Z y * inject_Z icx) * (3 * eps53))%Q).
+Proof.
+  intros fl P E I icx icy Sx Sy. split.
+  - intros x cy Hx Hcy Hi Sx'. apply (scale_width_given fl P E I); auto.
+  - intros y cx Hy Hcx Hi Sy'. apply (scale_height_given fl P E I); auto.
+Qed.
